@@ -107,6 +107,8 @@ func (sc *Scenario) Shape() string {
 				s += "W"
 			case "flush":
 				s += "f"
+			case "pinned-stops":
+				s += fmt.Sprintf("K%d", o.US)
 			}
 		}
 	}
@@ -249,6 +251,20 @@ func Run(sc *Scenario, opt Options, agg *vlib.HitAgg) *Result {
 				case "spin":
 					for t0 := time.Now(); time.Since(t0) < time.Duration(op.US)*time.Microsecond; {
 					}
+				case "pinned-stops":
+					w.RRs[op.RR].PinnedStops(op.US, func() int64 { return y.Hits()["rerunner.stop.cancelled"] })
+				case "await-ok":
+					// pacing only: wait until rerunner RR completed US successful runs
+					dl := time.Now().Add(50 * time.Millisecond)
+					for time.Now().Before(dl) {
+						w.mu.Lock()
+						ok := w.RRs[op.RR].lastOK != nil && w.RRs[op.RR].lastOK.ID >= op.US
+						w.mu.Unlock()
+						if ok {
+							break
+						}
+						time.Sleep(30 * time.Microsecond)
+					}
 				case "stormwrite":
 					w.Cells[op.Cell].StormWrite(op.RR, time.Duration(op.US)*time.Microsecond, oi)
 				case "sleep":
@@ -284,6 +300,10 @@ func Run(sc *Scenario, opt Options, agg *vlib.HitAgg) *Result {
 	// phase C: bounded progress after the last write
 	w.settle(activity, opt)
 
+	for _, rr := range w.RRs {
+		rr := rr
+		rr.holdOnce.Do(func() { close(rr.holdCh) }) // never leave a run parked
+	}
 	// phase D: teardown
 	if sc.ParallelEnd {
 		var sg sync.WaitGroup
